@@ -1,5 +1,6 @@
 import LitexModel.DriverLib
 import LitexModel.Namer.Tree
+import LitexModel.Namer.Emit
 import LitexModel.Generated.Keywords
 /-
   Driver for C02 (pure calls only).  Strings travel as `=<text>` tokens (so the empty string is `=`).
@@ -14,6 +15,18 @@ import LitexModel.Generated.Keywords
     call iskw =<text>      -> 1 / 0      call kwcount -> number of keywords
     call wellformed        -> kwWellformed keywords
     call noshape <base>*   -> noSuffixShapedBase
+    call emitattrs <entry>* | <attr>*      entry = =key - -  |  =key =name <val>     val = s=text | i<int>
+                                           attr  = n =text   |  p =name <val>
+        -> `_generate_attribute` text (blank -> ~, newline -> $), the attribute set listed in iteration order
+    call declorder =name*   -> indices in the order `sorted(objs, key=get_name)` emits them
+    call duidorder <duid>*  -> indices in the order `sorted(objs, key=duid)` emits them
+    call nscd <kw> <sig> ; ... | <extra>* | <cd> ; ... | <req>*      cd = =name <clk idx> <rst idx|->
+                                                                     req = <idx> | c=cdname | r=cdname
+        -> answers of get_name with ClockSignal/ResetSignal requests (repaired get_name), `!raise` when one raises
+    call iostep <sig> ; ... | <io idx>*   -> name_override of every signal after the IO naming step of convert()
+    call helpers =mem <a|w|d>*            -> name_overrides of the helper registers memory.py creates
+    call cdbase =cd                       -> clk / rst base names of a clock domain
+    call classanswers <kw> <obj>* | <req>*     obj = <s|m|i|a|d|c|r> =text <port>
 -/
 open Litex Litex.Driver Litex.Namer
 
@@ -65,6 +78,114 @@ def nsCall (f : List String → List Sig → List String → List Nat → List (
   let reqs ← parseNats rs
   pure (showNames ((f kw sigs extra reqs).map (·.2)))
 
+def enc (s : String) : String :=
+  String.ofList (s.toList.map fun c => if c == ' ' then '~' else if c == '\n' then '$' else c)
+
+def parseVal (w : String) : Option AVal :=
+  if w.startsWith "s=" then some (.str (w.drop 2).toString)
+  else if w.startsWith "i" then (w.drop 1).toString.toInt?.map .int
+  else none
+
+def parseTable : List String → Option AttrTable
+  | [] => some []
+  | k :: "-" :: "-" :: rest => do
+    let k ← unq k
+    let r ← parseTable rest
+    pure ((k, none) :: r)
+  | k :: n :: v :: rest => do
+    let k ← unq k
+    let n ← unq n
+    let v ← parseVal v
+    let r ← parseTable rest
+    pure ((k, some (n, v)) :: r)
+  | _ => none
+
+def parseAttrs : List String → Option (List Attr)
+  | [] => some []
+  | "n" :: s :: rest => do
+    let s ← unq s
+    let r ← parseAttrs rest
+    pure (.name s :: r)
+  | "p" :: n :: v :: rest => do
+    let n ← unq n
+    let v ← parseVal v
+    let r ← parseAttrs rest
+    pure (.pair n v :: r)
+  | _ => none
+
+def parseCd (ws : List String) : Option Cd :=
+  match ws with
+  | [n, c, r] => do
+    let n ← unq n
+    let c ← c.toNat?
+    let r ← if r == "-" then some none else r.toNat?.map some
+    pure { name := n, clk := c, rst := r }
+  | _ => none
+
+def parseReq (w : String) : Option Req :=
+  if w.startsWith "c=" then some (.clk (w.drop 2).toString)
+  else if w.startsWith "r=" then some (.rst (w.drop 2).toString)
+  else w.toNat?.map .obj
+
+def parseObjs : List String → Option (List Obj)
+  | [] => some []
+  | k :: t :: p :: rest => do
+    let t ← unq t
+    let p ← p.toNat?
+    let o ← match k with
+      | "s" => some (Obj.sig t) | "m" => some (.mem t) | "i" => some (.inst t)
+      | "a" => some (.adr t p) | "d" => some (.dat t p) | "c" => some (.cdClk t) | "r" => some (.cdRst t)
+      | _ => none
+    let r ← parseObjs rest
+    pure (o :: r)
+  | _ => none
+
+def callEmit (args : List String) : Option String :=
+  match args with
+  | "emitattrs" :: rest => do
+    let (ts, as) := splitBar rest
+    let tr ← parseTable ts
+    let l ← parseAttrs as
+    pure (q (enc (emitAttrs tr l)))
+  | "declorder" :: ns => do
+    let names ← ns.mapM unq
+    pure (showNats (declOrder ((List.range names.length).zip names)))
+  | "duidorder" :: ds => do
+    let duids ← parseNats ds
+    pure (showNats (duidOrder ((List.range duids.length).zip duids)))
+  | "nscd" :: flag :: rest => do
+    let kw ← kwOf flag
+    let (ss, rest2) := splitBar rest
+    let (es, rest3) := splitBar rest2
+    let (cs, rs) := splitBar rest3
+    let sigs ← (splitSemi ss).mapM parseSig
+    let extra ← es.mapM unq
+    let cds ← (splitSemi cs).mapM parseCd
+    let reqs ← rs.mapM parseReq
+    match namespaceAnswersCd kw sigs extra cds reqs with
+    | some a => pure (showNames (a.map (·.2)))
+    | none => pure "!raise"
+  | "iostep" :: rest => do
+    let (ss, is) := splitBar rest
+    let sigs ← (splitSemi ss).mapM parseSig
+    let ios ← parseNats is
+    pure (" ".intercalate ((ioStep ios sigs).map fun s => match s.override with | some o => q o | none => "-"))
+  | "helpers" :: m :: ks => do
+    let m ← unq m
+    let ports ← ks.mapM fun k => match k with
+      | "a" => some PortKind.async | "w" => some .writeFirst | "d" => some .dataReg | _ => none
+    pure (showNames (memHelpers m ports))
+  | ["cdbase", c] => do
+    let c ← unq c
+    pure (showNames [cdClkBase c, cdRstBase c])
+  | "classanswers" :: flag :: rest => do
+    let kw ← kwOf flag
+    let (os, rs) := splitBar rest
+    let objs ← parseObjs os
+    let reqs ← parseNats rs
+    pure (showNames ((classAnswers kw objs reqs).map (·.2)))
+  | _ => none
+
 def call (args : List String) : Option String :=
   match args with
   | "getnames" :: flag :: rest => getnames answers flag rest
@@ -80,6 +201,6 @@ def call (args : List String) : Option String :=
   | "noshape" :: bs => do
     let bases ← bs.mapM unq
     pure (if noSuffixShapedBase bases then "1" else "0")
-  | _ => none
+  | _ => callEmit args
 
 def main : IO Unit := mainLoop (fun _ _ _ => none) call
